@@ -26,7 +26,7 @@ import (
 
 type c12Attempt struct {
 	Path  string `json:"path"`  // prom | push:graphite | push:statsd | push:collectd | sock:graphite | sock:statsd | sock:collectd | varz | graphite | json
-	Fault string `json:"fault"` // none | badname | dupkey | progkey | badvalue | write-error | cancel | cancel-before | nan | dial-refused | peer-closes | peer-resets | peer-stalls | no-listener
+	Fault string `json:"fault"` // none | badname | dupkey | progkey | badvalue | write-error | cancel | cancel-before | cancel-while-waiting | nan | dial-refused | peer-closes | peer-resets | peer-stalls | no-listener
 	MI    int    `json:"mi"`    // metric index (prom / json faults)
 	LI    int    `json:"li"`    // label set index
 	K     int    `json:"k"`     // failing / cancelling write number (1-based)
@@ -130,6 +130,11 @@ func c12Enumerate(c *storeCase) []c12Attempt {
 	}
 	for _, h := range []string{"varz", "graphite"} {
 		out = append(out, c12Attempt{Path: h, Fault: "none"}, c12Attempt{Path: h, Fault: "cancel-before"})
+		// the client gives up while the handler waits for a metric that a
+		// program holds locked
+		for mi := range c.Metrics {
+			out = append(out, c12Attempt{Path: h, Fault: "cancel-while-waiting", MI: mi})
+		}
 		for k := 1; k <= all+1; k++ {
 			out = append(out, c12Attempt{Path: h, Fault: "cancel", K: k}, c12Attempt{Path: h, Fault: "write-error", K: k})
 		}
@@ -233,6 +238,18 @@ func runC12Attempt(base storeCase, a c12Attempt) (f *vstat.Failure, hit bool) {
 			defer cancel()
 			w := &faultWriter{}
 			switch a.Fault {
+			case "cancel-while-waiting":
+				if a.MI < len(ms) {
+					m := ms[a.MI]
+					m.Lock()
+					w.hit = true
+					go func() {
+						time.Sleep(3 * time.Millisecond) // the handler has reached the locked metric
+						cancel()
+						time.Sleep(time.Millisecond)
+						m.Unlock()
+					}()
+				}
 			case "cancel-before":
 				cancel()
 				w.hit = true
@@ -405,7 +422,7 @@ func runC12(c c12Case, st *vstat.Stats) *vstat.Failure {
 }
 
 func TestC12(t *testing.T) {
-	st := vstat.New("C12", "store shapes of 1-4 metrics x 0-4 label sets; for each shape EVERY export attempt is enumerated: Prometheus gather with each metric made unrepresentable (invalid name, duplicate key, key 'prog') and each label set given a non-UTF-8 value; graphite/statsd/collectd push with the writer failing at each successive write (1..records+1); varz and graphite HTTP handlers with the request cancelled before the first metric / at each write and the response writer failing at each write; JSON with each float made NaN; Exporter.PushMetrics over real sockets (graphite/TCP, collectd/unix stream, statsd/UDP) against a peer that refuses, closes at once, resets mid-push, never reads, or reads everything; plus fault-free controls. non-trivial = an attempt whose injected fault was actually hit; distinct by (store, attempt)")
+	st := vstat.New("C12", "store shapes of 1-4 metrics x 0-4 label sets; for each shape EVERY export attempt is enumerated: Prometheus gather with each metric made unrepresentable (invalid name, duplicate key, key 'prog') and each label set given a non-UTF-8 value; graphite/statsd/collectd push with the writer failing at each successive write (1..records+1); varz and graphite HTTP handlers with the request cancelled before the first metric / at each write / while the handler waits for a metric that is write-locked and the response writer failing at each write; JSON with each float made NaN; Exporter.PushMetrics over real sockets (graphite/TCP, collectd/unix stream, statsd/UDP) against a peer that refuses, closes at once, resets mid-push, never reads, or reads everything; plus fault-free controls. non-trivial = an attempt whose injected fault was actually hit; distinct by (store, attempt)")
 	st.Assumptions = []string{"lock state observed with TryLock polled for 2 s; helper goroutines counted in the goroutine dump", "push path driven through the build-tagged hook VerifWriteSocketMetrics with a scripted writer, and through PushMetrics on real loopback/unix sockets with metric_push_write_deadline=150ms (a socket fault counts as hit when fewer lines were written than the store holds)"}
 	runRaw := func(raw json.RawMessage) *vstat.Failure {
 		c, err := vstat.JSON[c12Case](raw)
